@@ -10,6 +10,10 @@
  *   dispatch out <hexname> -> ok <called:SYM|unknown|fault> <1 iff the output got the message and CFG->output_arg | ->
  *                             (snoopy_outputregistry_dispatch with CFG->output = name; snoopy_configuration_get is provided here)
  *   dispatchs out <hexname> -> the same with CFG->output at one fixed address whose content changes from case to case
+ *   exec <chain e1,..> <format d1,..> <hex output> -> ok <implementations run by snoopy_action_log_syscall_exec(), in order | []>
+ *                             (filter_chain "e1;e2:a;...", message_format "m:%{d1}%{d2:a}...", output; the snapshot's filtering.c, message.c,
+ *                              log-syscall-exec.c, log-message-dispatch.c; filters answer PASS)
+ *   threads ds <n=sym,...> -> ok <0|some> <first mismatch | ->   one thread per name formats %{n:a-n} 20000 times
  *   chain flt <e1,e2,...>  -> ok <implementations run by snoopy_filtering_check_chain("e1;e2:a;e3;..."), in order | []>
  *   byid   <k> <int>       -> ok <called:SYM|unknown|fault> <getName or ~>
  *   count  <k>             -> ok <getCount>
@@ -25,12 +29,44 @@
 
 #include "configuration.h"
 #include "filtering.h"
+#include "message.h"
+#include "action/log-syscall-exec.h"
+#include <pthread.h>
 
 extern const char *verif_last_called;
 extern int verif_calls;
-extern const void *verif_last_a0, *verif_last_a1;     /* output stubs: the logMessage and arg pointers they were handed */
+extern char verif_last_msg[512], verif_last_outarg[512]; /* output stubs: the text of the logMessage and of the arg they were handed */
 extern char verif_log[8192];                           /* every stub appends its name: the sequence of implementations that ran */
 extern int verif_stub_ret;                             /* what the stubs return (SNOOPY_FILTER_PASS while a chain is walked) */
+extern int verif_threads_mode;                         /* stubs touch only their thread-local record */
+extern __thread const char *verif_tl_last;             /* per thread: the stub that ran last, the argument text it was handed */
+extern __thread char verif_tl_arg[64];
+
+static void join_elems(char *dst, size_t cap, const char *list, const char *open, const char *sep, const char *close) {
+    /* "e1,e2,e3" -> open e1 close sep open e2 ":a" close ...   (an argument on every second element) */
+    size_t len = 0; dst[0] = 0;
+    if (!strcmp(list, "[]")) return;
+    char *dup = strdup(list), *save = 0; int k = 0;
+    for (char *tok = strtok_r(dup, ",", &save); tok; tok = strtok_r(0, ",", &save), k++)
+        len += (size_t)snprintf(dst + len, cap - len, "%s%s%s%s%s", k ? sep : "", open, tok, (k & 1) ? ":a" : "", close);
+    free(dup);
+}
+
+struct tjob { const char *name; const char *sym; int iters; long bad; char first[200]; };
+static void *tworker(void *p) {
+    struct tjob *j = p; char fmt[128], want[64], buf[512];
+    snprintf(fmt, sizeof fmt, "%%{%s:a-%s}", j->name, j->name);
+    snprintf(want, sizeof want, "a-%s", j->name);
+    for (int i = 0; i < j->iters; i++) {
+        verif_tl_last = NULL; verif_tl_arg[0] = 0; buf[0] = 0;
+        snoopy_message_generateFromFormat(buf, sizeof buf, 256, fmt);
+        if (verif_tl_last == NULL || strcmp(verif_tl_last, j->sym) || strcmp(verif_tl_arg, want)) {
+            if (!j->bad) snprintf(j->first, sizeof j->first, "%%{%s:%s} ran %s with argument '%s'", j->name, want, verif_tl_last ? verif_tl_last : "nothing", verif_tl_arg);
+            j->bad++;
+        }
+    }
+    return NULL;
+}
 
 /* the configuration the registries see (outputregistry.c: dispatch reads CFG->output / CFG->output_arg) */
 static snoopy_configuration_t verif_cfg;
@@ -57,25 +93,53 @@ static void handle(int nf, char **f, FILE *o) {
     } else if (!strcmp(f[0], "dispatch") && nf >= 3) {
         /* snoopy_outputregistry_dispatch with the configured output set to the given name */
         vbytes n = parse_bytes(f[2]);
-        static char msg[] = "the message", arg[] = "the-arg";
+        static char msg[] = "the message %{noop}", arg[] = "the-arg-%{noop}-%{nosuch}";
         verif_cfg.output = n.p; verif_cfg.output_arg = arg;
-        verif_last_a0 = verif_last_a1 = NULL;
+        verif_last_msg[0] = verif_last_outarg[0] = 0;
         int ret = snoopy_outputregistry_dispatch(msg);
         fputs("ok\t", o); outcome(o, ret);
-        if (verif_calls == 1) fprintf(o, "\t%d", (verif_last_a0 == (const void *)msg && verif_last_a1 == (const void *)arg) ? 1 : 0);
+        if (verif_calls == 1) fprintf(o, "\t%d", (!strcmp(verif_last_msg, msg) && !strcmp(verif_last_outarg, arg)) ? 1 : 0);
         else fputs("\t-", o);
     } else if (!strcmp(f[0], "dispatchs") && nf >= 3) {
         /* as dispatch, but CFG->output stays at ONE address for the whole sequence of cases and only its content changes
          * (a configuration string re-read into the same storage): the lookup must follow the content */
-        static char outbuf[1024]; static char msg[] = "the message", arg[] = "the-arg";
+        static char outbuf[1024]; static char msg[] = "the message %{noop}", arg[] = "the-arg-%{noop}-%{nosuch}";
         vbytes n = parse_bytes(f[2]);
         snprintf(outbuf, sizeof outbuf, "%s", n.p);
         verif_cfg.output = outbuf; verif_cfg.output_arg = arg;
-        verif_last_a0 = verif_last_a1 = NULL;
+        verif_last_msg[0] = verif_last_outarg[0] = 0;
         int ret = snoopy_outputregistry_dispatch(msg);
         fputs("ok\t", o); outcome(o, ret);
-        if (verif_calls == 1) fprintf(o, "\t%d", (verif_last_a0 == (const void *)msg && verif_last_a1 == (const void *)arg) ? 1 : 0);
+        if (verif_calls == 1) fprintf(o, "\t%d", (!strcmp(verif_last_msg, msg) && !strcmp(verif_last_outarg, arg)) ? 1 : 0);
         else fputs("\t-", o);
+    } else if (!strcmp(f[0], "exec") && nf >= 4) {
+        /* the whole logging path through its real entry point snoopy_action_log_syscall_exec() */
+        static char chain[4000], fmt[4000], outbuf[1024]; static char arg[] = "the-arg";
+        join_elems(chain, sizeof chain, f[1], "", ";", "");
+        snprintf(fmt, sizeof fmt, "m:");
+        join_elems(fmt + 2, sizeof fmt - 2, f[2], "%{", "", "}");
+        vbytes n = parse_bytes(f[3]);
+        snprintf(outbuf, sizeof outbuf, "%s", n.p);
+        verif_cfg.filtering_enabled = SNOOPY_TRUE; verif_cfg.filter_chain = chain;
+        verif_cfg.message_format = fmt; verif_cfg.log_message_max_length = 3000; verif_cfg.datasource_message_max_length = 300;
+        verif_cfg.output = outbuf; verif_cfg.output_arg = arg;
+        verif_stub_ret = SNOOPY_FILTER_PASS;
+        snoopy_action_log_syscall_exec();
+        verif_stub_ret = 0;
+        fprintf(o, "ok\t%s", verif_log[0] ? verif_log : "[]");
+    } else if (!strcmp(f[0], "threads") && nf >= 3) {
+        struct tjob jobs[8]; pthread_t th[8]; int n = 0;
+        char *dup = strdup(f[2]), *save = 0;
+        for (char *tok = strtok_r(dup, ",", &save); tok && n < 8; tok = strtok_r(0, ",", &save)) {
+            char *eq = strchr(tok, '='); if (!eq) continue; *eq = 0;
+            jobs[n].name = tok; jobs[n].sym = eq + 1; jobs[n].iters = 20000; jobs[n].bad = 0; jobs[n].first[0] = 0; n++;
+        }
+        verif_threads_mode = 1;
+        for (int i = 0; i < n; i++) pthread_create(&th[i], NULL, tworker, &jobs[i]);
+        long bad = 0; const char *first = "-";
+        for (int i = 0; i < n; i++) { pthread_join(th[i], NULL); if (jobs[i].bad && !bad) first = jobs[i].first; bad += jobs[i].bad; }
+        verif_threads_mode = 0;
+        fprintf(o, "ok\t%s\t%s", bad ? "some" : "0", first);
     } else if (!strcmp(f[0], "chain") && nf >= 3) {
         /* snoopy_filtering_check_chain over "e1:a;e2;e3:a;..." with every (stub) filter answering PASS */
         char chain[4000]; size_t len = 0; chain[0] = 0;
